@@ -263,6 +263,17 @@ where
     ) -> Result<WriteEvent, Self::Error> {
         let _summary = self.summary().await?;
 
+        // The in-memory vault keeps the existing entry when the
+        // identifier is already present so the file must not get
+        // a second row for it either (a later update or delete
+        // only finds the first row)
+        if let Some((existing, _)) = self.read_secret(&id).await? {
+            return Ok(WriteEvent::CreateSecret(
+                id,
+                existing.into_owned(),
+            ));
+        }
+
         // Encode the row into a buffer
         let mut buffer = Vec::new();
         let mut writer =
